@@ -2,8 +2,8 @@
 # usage: run_mutant.sh <seeded-dir-name> <prop> [tier]   -- applies the patch to /repo, runs the check, reverts
 M="$1"; P="$2"; TIER="${3:-quick}"
 cd /verif
-if ! git -C /repo diff --quiet; then echo "repo dirty"; exit 9; fi
-if git -C /repo apply "/verif/seeded/$M/patch.diff" 2>/dev/null; then :; elif git -C /repo apply -3 "/verif/seeded/$M/patch.diff" 2>/dev/null; then git -C /repo reset -q; else echo "$M: PATCH-DOES-NOT-APPLY"; exit 8; fi
+if ! git -C /repo diff --quiet || [ -n "$(git -C /repo status --porcelain)" ]; then echo "repo dirty exit=9"; exit 9; fi
+if git -C /repo apply "/verif/seeded/$M/patch.diff" 2>/dev/null; then :; else echo "$M: PATCH-DOES-NOT-APPLY exit=8"; exit 8; fi
 ./check "$P" --tier "$TIER" --evidence-dir /verif/out/mutant_evidence > "out/mutant_$M.$P.log" 2>&1; rc=$?
 git -C /repo checkout -- . ; git -C /repo clean -fdq fakesnow tests 2>/dev/null
 echo "$M $P exit=$rc $(grep -c '^VIOLATION' out/mutant_$M.$P.log) violation-lines; $(grep '^VIOLATION' out/mutant_$M.$P.log | head -2 | cut -c1-200)"
